@@ -24,6 +24,9 @@ def tasks(tier, seed):
         t.append(("contracts.infer_local", "task", c + (seed,), to, f"_infer {c}"))
     from contracts import external_deps
     t += external_deps.softmax_tasks(tier, seed)
+    # B: the same contracts replayed on the real code at a ladder of larger shapes (stand-in for the missing induction over sizes)
+    t.append(("contracts.size_ladder", "task", ("vjp", tier, seed), 1500, "size ladder: back-propagation shapes"))
+    t.append(("contracts.size_ladder", "task", ("infer", tier, seed), 1500, "size ladder: forward passes"))
     return t
 
 
